@@ -717,7 +717,13 @@ class Layer(BaseObject):
         """
         for glyphName in glyphNames:
             if glyphName not in self._glyphs:
-                self.loadGlyph(glyphName)
+                glyph = self.loadGlyph(glyphName)
+                if self._unicodeData is not None:
+                    # the map was built from the file as it was when it was
+                    # scanned: bring it in line with what has just been read
+                    scanned = [code for code, names in self._unicodeData.items() if glyphName in names]
+                    self._unicodeData.removeGlyphData(glyphName, scanned)
+                    self._unicodeData.addGlyphData(glyphName, glyph.unicodes)
             else:
                 glyph = self._glyphs[glyphName]
                 glyph.destroyAllRepresentations(None)
